@@ -134,6 +134,22 @@ fn one_model(cw: &mut CaseWriter, label: &str, m: &Model, rng: &mut Rng) {
             }
         }
     }
+    // the sample points themselves, against the model of ray_origins_for_window (up to 4 windows per model)
+    for w in windows.iter().filter(|w| !w["placement"].is_null()).take(4) {
+        let pl = &w["placement"];
+        let f = |k: &str| pl[k].as_f64().unwrap_or(0.0);
+        let (ex, ey) = (pl["v1"][0].as_f64().unwrap_or(0.0) - pl["v0"][0].as_f64().unwrap_or(0.0), pl["v1"][1].as_f64().unwrap_or(0.0) - pl["v0"][1].as_f64().unwrap_or(0.0));
+        let n = (ex * ex + ey * ey).sqrt();
+        if n < 1e-9 {
+            continue;
+        }
+        cw.write(json!({
+            "op": "origins", "label": format!("{label}:origins:{}", w["window"].as_str().unwrap_or("?")), "kind": "origins",
+            "position": pl["pos"], "v0": pl["v0"],
+            "trig": {"az": [f("azimuth").to_radians().cos(), f("azimuth").to_radians().sin()], "t": [f("tilt").to_radians().cos(), f("tilt").to_radians().sin()], "e": [ex / n, ey / n]},
+            "window": {"x": pl["x"], "y": pl["y"], "w": pl["w"], "h": pl["h"], "setback": pl["setback"]},
+            "impl": {"origins": pl["origins"]}}));
+    }
     cw.write(json!({
         "op": "fshobst", "label": label, "model": model_value(m),
         "n_occluders": m.collect_occluders().len(),
